@@ -3,7 +3,7 @@
     condition [seam_safe] on both texts the string-level premise of the property gives the
     cluster-level premise, so [operations] / [repair] round-trip with premises on the two
     strings alone. *)
-From TU Require Import Base UAX29_Model UAX29_Proofs C10_Model C10_Proofs C10_Seam.
+From TU Require Import Base UAX29_Model UAX29_Proofs C10_Model C10_Proofs C10_Seam C10_Stable.
 From TU Require C11_Model C11_Proofs C11_Link C11_UAX29.
 From Coq Require Import Lia.
 Open Scope N_scope.
@@ -183,11 +183,11 @@ Qed.
 Lemma cwordok_ne W : Forall P11.cwordok W -> Forall (fun w : str => w <> []) W.
 Proof. apply Forall_impl. intros w [H _]. exact H. Qed.
 
-(** * D. a clean, seam-safe text *)
-Section SeamSafe.
+(** * D. a clean text whose word boundaries are context-free boundaries ([seam_safe_cf]) *)
+Section SeamSafeCf.
 Variable s : str.
 Hypothesis Hc : M11.cleansb s = true.
-Hypothesis Hs : seam_safe s = true.
+Hypothesis Hs : seam_safe_cf s = true.
 
 Let W := M11.words s.
 
@@ -206,12 +206,6 @@ Proof.
   apply seams_ok_11. exact Hs.
 Qed.
 
-Lemma ss_Clean : Clean (segment s).
-Proof.
-  apply (C11_Link.Clean_of_cleansb s); [exact Hc|apply segment_concat_l|].
-  rewrite U11.wf_seg_segment. exact ss_no_mixed.
-Qed.
-
 (** the non-whitespace clusters of the text are the clusters of the text without whitespace *)
 Lemma ss_strip : strip (segment s) = segment (strip_cp s).
 Proof.
@@ -221,7 +215,119 @@ Proof.
   rewrite E. symmetry. apply segment_concat_cf; [apply cwordok_ne, P11.words_ok|].
   apply seams_ok_cf. exact Hs.
 Qed.
-End SeamSafe.
+End SeamSafeCf.
+
+(** * D'. [seam_safe]: deleting the spaces of a clean text keeps every other cluster — exactly *)
+Lemma Clean_segment s : M11.cleansb s = true -> no_mixedb s = true -> Clean (segment s).
+Proof.
+  intros Hc Hm. apply (C11_Link.Clean_of_cleansb s); [exact Hc|apply segment_concat_l|].
+  rewrite U11.wf_seg_segment. exact Hm.
+Qed.
+
+Lemma chain_tail c R : chain (c :: R) = true -> chain R = true.
+Proof. destruct R as [|d R']; [reflexivity|]. rewrite chain_cons2. intros H. apply andb_true_iff in H as [_ H]. exact H. Qed.
+
+Lemma chain_cons c R :
+  chain (c :: R) = (match R with d :: _ => glued c d | [] => true end) && chain R.
+Proof. destruct R; reflexivity. Qed.
+
+Lemma del_safe_cons c w r :
+  del_safe (c :: w :: r) =
+  (if negb (cl_ws c) && cl_ws w then match r with d :: _ => glued c d | [] => true end else true)
+  && del_safe (w :: r).
+Proof. reflexivity. Qed.
+
+Lemma del_safe_tail c R : del_safe (c :: R) = true -> del_safe R = true.
+Proof. destruct R as [|w r]; [reflexivity|]. rewrite del_safe_cons. intros H. apply andb_true_iff in H as [_ H]. exact H. Qed.
+
+(** (i) chain + deletable spaces => the non-whitespace clusters form a chain *)
+Lemma chain_strip t : SC t -> chain t = true -> del_safe t = true -> chain (strip t) = true.
+Proof.
+  induction t as [|c R IH]; intros Hsc Hch Hd; [reflexivity|].
+  destruct Hsc as [Hc HscR]. specialize (IH HscR (chain_tail _ _ Hch) (del_safe_tail _ _ Hd)).
+  rewrite strip_cons. destruct (cl_ws c) eqn:Ec; [exact IH|].
+  rewrite chain_cons, IH, andb_true_r.
+  destruct R as [|w r]; [reflexivity|]. rewrite strip_cons. destruct (cl_ws w) eqn:Ew.
+  - destruct HscR as [Hw _]. destruct (Hw Ew) as (_ & Hne & Hh).
+    destruct r as [|d r']; [congruence|]. cbn [head_nonws] in Hh. rewrite strip_cons, Hh.
+    rewrite del_safe_cons, Ec, Ew in Hd. cbn [negb andb] in Hd.
+    apply andb_true_iff in Hd as [Hd _]. exact Hd.
+  - rewrite chain_cons2 in Hch. apply andb_true_iff in Hch as [Hg _]. exact Hg.
+Qed.
+
+(** (ii) and conversely *)
+Lemma del_safe_of_chain t : SC t -> chain (strip t) = true -> del_safe t = true.
+Proof.
+  induction t as [|c R IH]; intros Hsc Hch; [reflexivity|].
+  destruct Hsc as [Hc HscR].
+  assert (HchR : chain (strip R) = true).
+  { rewrite strip_cons in Hch. destruct (cl_ws c); [exact Hch|exact (chain_tail _ _ Hch)]. }
+  specialize (IH HscR HchR). destruct R as [|w r]; [reflexivity|].
+  rewrite del_safe_cons, IH, andb_true_r.
+  destruct (cl_ws c) eqn:Ec; [reflexivity|]. destruct (cl_ws w) eqn:Ew; [|reflexivity]. cbn [negb andb].
+  destruct HscR as [Hw _]. destruct (Hw Ew) as (_ & Hne & Hh).
+  destruct r as [|d r']; [congruence|]. cbn [head_nonws] in Hh.
+  rewrite !strip_cons, Ec, Ew, Hh, chain_cons2 in Hch. apply andb_true_iff in Hch as [Hg _]. exact Hg.
+Qed.
+
+Lemma forallb_filter {A} (p q : A -> bool) l : forallb p l = true -> forallb p (filter q l) = true.
+Proof.
+  induction l as [|x l IH]; [reflexivity|]. cbn [forallb filter]. intros H.
+  apply andb_true_iff in H as [H1 H2]. destruct (q x); [cbn [forallb]; rewrite H1|]; auto.
+Qed.
+
+Lemma Forall_filter {A} (P : A -> Prop) (q : A -> bool) l : Forall P l -> Forall P (filter q l).
+Proof.
+  induction 1 as [|x l Hx Hl IH]; [constructor|]. cbn [filter]. destruct (q x); [constructor|]; assumption.
+Qed.
+
+Lemma concat_strip_segment s : no_mixedb s = true -> concat (strip (segment s)) = strip_cp s.
+Proof.
+  intros Hm. rewrite <- U11.wf_seg_segment in Hm.
+  change (concat (strip (segment s))) with (M11.remove (segment s)).
+  rewrite (P11.remove_spec_seg _ Hm), segment_concat_l. reflexivity.
+Qed.
+
+Lemma seam_safe_strip_l s :
+  M11.cleansb s = true -> seam_safe s = true -> strip (segment s) = segment (strip_cp s).
+Proof.
+  intros Hc Hs. unfold seam_safe in Hs. apply andb_true_iff in Hs as [Hm Hd].
+  destruct (Clean_segment s Hc Hm) as [_ Hsc].
+  rewrite <- (concat_strip_segment s Hm). symmetry. apply chain_stable.
+  - apply Forall_filter. apply segment_nonempty_l.
+  - apply forallb_filter. apply segment_clusters.
+  - apply chain_strip; [exact Hsc|apply segment_chain|exact Hd].
+Qed.
+
+(** a cluster list whose concatenation has no whitespace code point: nothing mixed *)
+Lemma no_mixedb_of_strip s : strip (segment s) = segment (strip_cp s) -> no_mixedb s = true.
+Proof.
+  intros E. unfold no_mixedb. rewrite forallb_forall. intros c Hc. unfold cl_nomixed.
+  fold (cl_ws c). destruct (cl_ws c) eqn:Ew; [reflexivity|]. cbn [orb].
+  assert (Hin : In c (strip (segment s))).
+  { unfold strip. apply filter_In. split; [exact Hc|]. unfold nonws. rewrite Ew. reflexivity. }
+  rewrite E in Hin. rewrite forallb_forall. intros x Hx.
+  assert (Hx' : In x (strip_cp s)).
+  { rewrite <- (segment_concat_l (strip_cp s)). apply in_concat. exists c. split; assumption. }
+  unfold strip_cp in Hx'. apply filter_In in Hx' as [_ Hx']. exact Hx'.
+Qed.
+
+Lemma seam_safe_iff_l s :
+  M11.cleansb s = true ->
+  (seam_safe s = true <-> strip (segment s) = segment (strip_cp s)).
+Proof.
+  intros Hc. split; [apply seam_safe_strip_l; exact Hc|]. intros E.
+  pose proof (no_mixedb_of_strip s E) as Hm. unfold seam_safe. rewrite Hm. cbn [andb].
+  destruct (Clean_segment s Hc Hm) as [_ Hsc]. apply del_safe_of_chain; [exact Hsc|].
+  rewrite E. apply segment_chain.
+Qed.
+
+(** the category-only condition is sufficient *)
+Lemma seam_safe_cf_safe_l s : M11.cleansb s = true -> seam_safe_cf s = true -> seam_safe s = true.
+Proof. intros Hc Hs. apply seam_safe_iff_l; [exact Hc|]. apply ss_strip; assumption. Qed.
+
+Lemma seam_safe_no_mixed_l s : seam_safe s = true -> no_mixedb s = true.
+Proof. unfold seam_safe. intros H. apply andb_true_iff in H as [H _]. exact H. Qed.
 
 Lemma str_premise_spec f t :
   str_premise f t = true <->
@@ -240,8 +346,10 @@ Lemma seam_safe_premise_l f t :
   seam_safe f = true -> seam_safe t = true ->
   Clean (segment f) /\ Clean (segment t) /\ strip (segment f) = strip (segment t).
 Proof.
-  intros Hf Ht He Sf St. split; [apply ss_Clean; assumption|]. split; [apply ss_Clean; assumption|].
-  rewrite (ss_strip f Hf Sf), (ss_strip t Ht St), He. reflexivity.
+  intros Hf Ht He Sf St.
+  split; [apply Clean_segment; [exact Hf|apply seam_safe_no_mixed_l; exact Sf]|].
+  split; [apply Clean_segment; [exact Ht|apply seam_safe_no_mixed_l; exact St]|].
+  rewrite (seam_safe_strip_l f Hf Sf), (seam_safe_strip_l t Ht St), He. reflexivity.
 Qed.
 
 (** the round trip with premises on the two strings alone *)
@@ -268,13 +376,18 @@ Proof.
   - symmetry. apply cll_eqb_eq. reflexivity.
 Qed.
 
-(** * E. the cluster-level theorems with [segment] for the oracle *)
-Lemma Clean_segment s : M11.cleansb s = true -> no_mixedb s = true -> Clean (segment s).
+(** ... and the class is exactly "string-level premise, and not both texts seam-safe ... with
+    different results": a KF1 pair has a text that is not seam-safe *)
+Lemma kf1_not_safe_l f t : kf1b f t = true -> seam_safe f && seam_safe t = false.
 Proof.
-  intros Hc Hm. apply (C11_Link.Clean_of_cleansb s); [exact Hc|apply segment_concat_l|].
-  rewrite U11.wf_seg_segment. exact Hm.
+  intros H. destruct (seam_safe f && seam_safe t) eqn:E; [|reflexivity].
+  apply andb_true_iff in E as [Sf St]. pose proof H as H0. unfold kf1b in H.
+  apply andb_true_iff in H as [H _]. apply andb_true_iff in H as [H _]. apply andb_true_iff in H as [H _].
+  assert (D : dom_C10 f t = true) by (unfold dom_C10; rewrite H, Sf, St; reflexivity).
+  rewrite (kf1_outside_l f t D) in H0. discriminate.
 Qed.
 
+(** * E. the cluster-level theorems with [segment] for the oracle *)
 Lemma ops_roundtrip_u_l f t :
   M11.cleansb f = true -> M11.cleansb t = true -> no_mixedb f = true -> no_mixedb t = true ->
   strip (segment f) = strip (segment t) ->
